@@ -1,4 +1,45 @@
-(* Properties_C10.v — placeholder until SdlErrProofs.v lands; see DESIGN.md 4 C10. *)
-From PD Require Import Base SdlModel SdlObs.
-Theorem C10_placeholder : True. Proof. exact I. Qed.
-Print Assumptions C10_placeholder.
+(* Properties_C10.v — C10: dataset errors surface at the right batch and iteration carries on.
+   Model: SdlModel.v with in-band error results (RErr); proofs: SdlMapProofs.v. *)
+From PD Require Import Base SdlModel SdlObs SdlMapProofs.
+Open Scope list_scope. Open Scope nat_scope.
+
+(* map-style, snapshot interval <= 1 (the default), ANY set of failing indices, EVERY schedule: the k-th outcome is an
+   error exactly when batch k contains a failing index, every other outcome is that batch, nothing is lost after an
+   error, and the epoch ends with StopIteration after the last batch *)
+Theorem C10_error_position_exact : forall c, c_kind c = KMap -> 0 < c_W c -> 0 < c_P c -> c_I c <= 1 ->
+  forall sched, outcomes c (S (LL c)) (sdl_fresh c) sched = map (want c) (seq 0 (LL c)) ++ [OStop].
+Proof. intros c Hk HW HP HI. apply map_epoch_exact; auto. Qed.
+Print Assumptions C10_error_position_exact.
+
+Corollary C10_kth_outcome : forall c, c_kind c = KMap -> 0 < c_W c -> 0 < c_P c -> c_I c <= 1 ->
+  forall sched k, k < LL c ->
+  nth k (outcomes c (S (LL c)) (sdl_fresh c) sched) OStop = (if badb c k then OErr else OBatch (nth k (c_batches c) [])).
+Proof.
+  intros c Hk HW HP HI sched k Hlt. rewrite (C10_error_position_exact c Hk HW HP HI sched).
+  rewrite app_nth1 by (rewrite map_length, seq_length; exact Hlt).
+  rewrite (nth_indep _ OStop (want c 0)) by (rewrite map_length, seq_length; exact Hlt).
+  rewrite map_nth, seq_nth by exact Hlt. reflexivity.
+Qed.
+Print Assumptions C10_kth_outcome.
+
+(* FULL statement for every snapshot interval — FALSE of the faithful model (and of the code): known finding D9 *)
+Definition C10_statement_all_intervals : Prop :=
+  forall c, c_kind c = KMap -> 0 < c_W c -> 0 < c_P c ->
+  forall sched, outcomes c (S (LL c)) (sdl_fresh c) sched = map (want c) (seq 0 (LL c)) ++ [OStop].
+
+Definition d9_cfg : cfg :=
+  {| c_kind := KMap; c_W := 2; c_P := 2; c_I := 2; c_bs := 1; c_drop := false; c_shards := [];
+     c_batches := [[0];[1];[2];[3];[4];[5];[6];[7];[8];[9];[10];[11]]; c_bad := [2]; c_stateful := true; c_rewind := false |}.
+
+(* witness (n=12, batch_size=1, num_workers=2, snapshot_every_n_steps=2, index 2 raises): after the error the next snapshot
+   boundary trips _take_snapshot's alignment assertion and batch [4] is lost *)
+Theorem C10_all_intervals_refuted : ~ C10_statement_all_intervals.
+Proof.
+  intros H. specialize (H d9_cfg eq_refl ltac:(cbn; lia) ltac:(cbn; lia) []). vm_compute in H. discriminate.
+Qed.
+Print Assumptions C10_all_intervals_refuted.
+
+Example d9_outcomes :
+  firstn 6 (outcomes d9_cfg 13 (sdl_fresh d9_cfg) []) =
+  [OBatch [0]; OBatch [1]; OErr; OBatch [3]; OAssert "assert main_snapshot_idx == rcvd_idx - 1"; OAssert "assert main_snapshot_idx == rcvd_idx - 1"].
+Proof. vm_compute. reflexivity. Qed.
